@@ -688,6 +688,30 @@ class Interp:
             t = self.facts.ty(t["inner"])
         return t is not None and t["k"] == "adt" and t["path"].endswith("rc::Rc")
 
+    def contains_handle(self, tyid, depth=0):
+        """Does a value of this type (transitively) hold an Rc handle to shared mutable state?"""
+        cache = self.__dict__.setdefault("_ch_cache", {})
+        if tyid in cache:
+            return cache[tyid]
+        cache[tyid] = False
+        t = self.facts.ty(tyid)
+        r = False
+        if t is None or depth > 6:
+            r = False
+        elif t["k"] in ("ref", "ptr", "slice", "array"):
+            r = self.contains_handle(t["inner"], depth + 1)
+        elif t["k"] == "tuple":
+            r = any(self.contains_handle(x, depth + 1) for x in t["items"])
+        elif t["k"] == "adt":
+            if t["path"].endswith("rc::Rc"):
+                r = True
+            elif t["path"] in self.facts.structs:
+                r = any(self.contains_handle(f["ty"], depth + 1) for f in self.facts.structs[t["path"]]["fields"])
+            elif t["path"].endswith("vec::Vec") or t["path"].endswith("option::Option"):
+                r = bool(t["args"]) and self.contains_handle(t["args"][0], depth + 1)
+        cache[tyid] = r
+        return r
+
     def ev_ctor(self, e, st, fr):
         tyd = self.facts.ty(e["ty"])
 
